@@ -356,10 +356,19 @@ package originium
 //@ define fromTable(lm, x, L, p) = ex(q, 0, TLen[fAt(lm, L, p)], TEnt[fAt(lm, L, p)][q] == x)
 //@ define epos(e, l) = ite(e == nil, ListLen[ref(l)], ElIdx[ref(e)])
 //
+// BestL/BestP/BestQ: level, list position and entry position of the table entry `best` was taken from
+// (witnesses instead of existential invariants: the proofs stay quantifier-light)
+//@ ghost BestL Int
+//@ ghost BestP Int
+//@ ghost BestQ Int
+//@ define bestAt(lm, x) = 0 <= BestL && BestL < len(lm.levels) && 0 <= BestP && BestP < ListLen[ref(lm.levels[BestL])] && 0 <= BestQ && BestQ < TLen[fAt(lm, BestL, BestP)] && TEnt[fAt(lm, BestL, BestP)][BestQ] == x
 //@ func (*originium.levelManager).searchLowerBound -> e, ok
 //@ props C10 C01
 //@ requires wf(key) && lmOK(lm)
-//@ assigns HashBuf, LbIdx, LastPos, PrevTs
+//@ assigns HashBuf, LbIdx, LastPos, PrevTs, BestL, BestP, BestQ
+//@ after_assign assign best: ghost BestL = level
+//@ after_assign assign best: ghost BestP = ElIdx[ref(e)]
+//@ after_assign assign best: ghost BestQ = LastPos
 //@ ensures HashBuf == old(HashBuf)
 //@ ensures ok ==> (wf(e.Key) && matches(e, key))
 //@ ensures ok ==> ex(L, 0, len(lm.levels), ex(p, 0, ListLen[ref(lm.levels[L])], fromTable(lm, e, L, p)))
@@ -403,17 +412,17 @@ package originium
 //@ before_call (*list.Element).Next#0: assert all(p, 0, ElIdx[ref(e)], accounted(lm, key, found, best, level, p))
 //@ before_call (*list.Element).Next#0: assert forall(Int(L), Int(p), (0 <= L && L < level && 0 <= p && p < ListLen[ref(lm.levels[L])]) ==> accounted(lm, key, found, best, L, p))
 //@ before_call (*list.Element).Next#0: assert all(p, 0, ElIdx[ref(e)] + 1, accounted(lm, key, found, best, level, p))
-//@ before_call (*list.Element).Next#0: assert found ==> (ex(L, 0, level, ex(p, 0, ListLen[ref(lm.levels[L])], fromTable(lm, best, L, p))) || ex(p, 0, ElIdx[ref(e)] + 1, fromTable(lm, best, level, p)))
+//@ before_call (*list.Element).Next#0: assert found ==> (bestAt(lm, best) && (BestL < level || (BestL == level && BestP <= ElIdx[ref(e)])))
 //@ after_call (*list.Element).Next#0: assert epos(result, tables) <= ElIdx[ref(e)] + 1 && (result != nil ==> inList(result, tables))
 //@ loop 0:
 //@   invariant HashBuf == old(HashBuf)
-//@   invariant found ==> (wf(best.Key) && matches(best, key) && ex(L, 0, rangeindex+1, ex(p, 0, ListLen[ref(lm.levels[L])], fromTable(lm, best, L, p))))
+//@   invariant found ==> (wf(best.Key) && matches(best, key) && bestAt(lm, best) && BestL < rangeindex+1)
 //@   invariant forall(Int(L), Int(p), (0 <= L && L < rangeindex+1 && 0 <= p && p < ListLen[ref(lm.levels[L])]) ==> accounted(lm, key, found, best, L, p))
 //@ loop 1:
 //@   invariant HashBuf == old(HashBuf)
 //@   invariant 0 <= level && level < len(lm.levels) && level == rangeindex && tables == lm.levels[level] && (e != nil ==> inList(e, tables))
 //@   invariant found ==> (wf(best.Key) && matches(best, key))
-//@   invariant found ==> (ex(L, 0, level, ex(p, 0, ListLen[ref(lm.levels[L])], fromTable(lm, best, L, p))) || ex(p, 0, epos(e, tables), fromTable(lm, best, level, p)))
+//@   invariant found ==> (bestAt(lm, best) && (BestL < level || (BestL == level && BestP < epos(e, tables))))
 //@   invariant forall(Int(L), Int(p), (0 <= L && L < level && 0 <= p && p < ListLen[ref(lm.levels[L])]) ==> accounted(lm, key, found, best, L, p))
 //@   invariant all(p, 0, epos(e, tables), accounted(lm, key, found, best, level, p))
 //
